@@ -13,7 +13,7 @@
    amounts of the writes times their slots inside [a,b) is [seg_read_exact] of Proofs/SegRead.v (builder
    "seg"); C01_exact uses it directly, C01_exact_from keeps the reduction with that fact as a premise. *)
 From Pyro Require Import Model.Base Model.Tree Model.Segment Model.Timeline Model.Storage
-  Proofs.TreeProofs Proofs.SegStruct Proofs.StorageProofs Proofs.StorageCounters.
+  Proofs.TreeProofs Proofs.SegStruct Proofs.StorageProofs Proofs.StorageCounters Proofs.C01History.
 Local Open Scope Z_scope.
 
 Theorem C01_get_readonly : forall rt sel f u st, fst (st_step rt st (OpGet sel f u)) = st.
@@ -96,6 +96,47 @@ Theorem C01_meta : forall pis sel from until ks out,
   exists pi, last_put (sid_key (fst ks)) pis = Some pi /\ go_meta out = pi_meta pi.
 Proof. exact get_meta. Qed.
 Print Assumptions C01_meta.
+
+(* C01_exact over arbitrary histories.  [live_uploads rt ops] = the uploads of the history that the retention
+   guard accepted and that no later Delete with a matching selector removed, oldest first; [live_rev] is the
+   recursion of the checker's StorCorr.live_puts (C01_live_puts_checker).  hist_op K: every Put is an exact_put,
+   Gets and Deletes are arbitrary, retention PASSES are excluded (partial: for histories containing
+   DeleteDataBefore passes only the three C11_retention clauses are proved, not a closed form). *)
+Theorem C01_history_normal : forall K rt ops, block_deletable K -> Forall (hist_op K) ops -> key_consistent (puts_of ops) ->
+  st_equiv (fst (st_run rt ops st_init)) (st_after (live_uploads rt ops)) /\
+  incl (live_uploads rt ops) (puts_of ops) /\ Forall (exact_put K) (live_uploads rt ops).
+Proof. exact history_live. Qed.
+Print Assumptions C01_history_normal.
+
+Theorem C01_exact_history : forall K rt ops sel from until p,
+  block_deletable K -> Forall (hist_op K) ops -> key_consistent (puts_of ops) -> no_average (puts_of ops) ->
+  let ab := s_normalize_unix (from, until) in
+  fst ab < snd ab ->
+  let S := sumZ (map (StorageProofs.contrib p (fst ab) (snd ab)) (filter (fun pi => sel_matches sel (pi_sid pi)) (live_uploads rt ops))) in
+  match st_get sel from until (fst (st_run rt ops st_init)) with
+  | Some out => Z.of_N (t_self_at p (go_tree out)) = S
+  | None => S = 0
+  end.
+Proof. exact exact_history. Qed.
+Print Assumptions C01_exact_history.
+
+Theorem C01_meta_history : forall K rt ops sel from until ks out,
+  block_deletable K -> Forall (hist_op K) ops -> key_consistent (puts_of ops) ->
+  st_matching sel (st_after (live_uploads rt ops)) = [ks] ->
+  st_get sel from until (fst (st_run rt ops st_init)) = Some out ->
+  exists pi, last_put (sid_key (fst ks)) (live_uploads rt ops) = Some pi /\ go_meta out = pi_meta pi.
+Proof. exact meta_history. Qed.
+Print Assumptions C01_meta_history.
+
+Theorem C01_live_uploads_forward : forall rt ops, live_uploads rt ops = fold_left (live_step rt) ops [].
+Proof. exact live_uploads_forward. Qed.
+Print Assumptions C01_live_uploads_forward.
+
+Theorem C01_live_puts_checker : forall rt sel rev_hs, Forall (hop_guard rt) rev_hs -> forall D,
+  map (fun x => match x with (s, f, u, ss, m) => put_of s f u ss m end) (Corr.StorCorr.live_puts sel rev_hs D) =
+  filter (fun pi => sel_matches sel (pi_sid pi)) (live_rev rt (flat_map op_of_hop rev_hs) D).
+Proof. exact live_puts_live_rev. Qed.
+Print Assumptions C01_live_puts_checker.
 
 (* 'average' series.  Full statement of the property: the sum is divided by the number of contributing
    uploads,
@@ -209,4 +250,29 @@ Example C01_average_single_slot_nonvacuous :
 Proof.
   cbv zeta. split; [|split; vm_compute; reflexivity].
   repeat (apply Forall_cons; [split; [apply exact_putb_ok; vm_compute; reflexivity|vm_compute; reflexivity]|]). apply Forall_nil.
+Qed.
+
+(* a history with a refused ingest (retention guard at 1600000050), a delete and later ingests *)
+Example C01_exact_history_nonvacuous :
+  let mk := fun (s : sid) (f u : Z) (v : N) =>
+    {| pi_sid := s; pi_from := f; pi_until := u; pi_tree := t_insert [109;59;102]%N v t_empty; pi_meta := ex_meta |} in
+  let ops := [OpPut (mk ex_s1 1600000090 1600000110 6%N); OpPut (mk ex_s2 1600000100 1600000130 9%N);
+              OpPut (mk ex_s1 1600000000 1600000010 7%N);          (* refused: starts before the threshold *)
+              OpGet ex_sel 1600000090 1600000130; OpDelete ex_s1;
+              OpPut (mk ex_s1 1600000120 1600000130 5%N)] in
+  Forall (hist_op 63) ops /\ key_consistent (puts_of ops) /\ no_average (puts_of ops) /\ block_deletable 63 /\
+  map pi_from (live_uploads (Some 1600000050) ops) = [1600000100; 1600000120] /\
+  match st_get ex_sel 1600000090 1600000130 (fst (st_run (Some 1600000050) ops st_init)) with
+  | Some out => t_self_at [[109]%N; [102]%N] (go_tree out) = 14%N      (* 9 + 5; the deleted 6 is gone *)
+  | None => False
+  end.
+Proof.
+  cbv zeta. split; [|split; [|split; [|split; [|split]]]].
+  - repeat (apply Forall_cons; [first [exact I | apply exact_putb_ok; vm_compute; reflexivity]|]). apply Forall_nil.
+  - intros pi pi' H1 H2. cbn in H1, H2.
+    destruct H1 as [<-|[<-|[<-|[<-|[]]]]], H2 as [<-|[<-|[<-|[<-|[]]]]]; cbn; intros E; try reflexivity; discriminate E.
+  - intros pi H. cbn in H. destruct H as [<-|[<-|[<-|[<-|[]]]]]; cbn; discriminate.
+  - vm_compute. discriminate.
+  - vm_compute. reflexivity.
+  - vm_compute. reflexivity.
 Qed.
